@@ -258,6 +258,57 @@ func runC06(c *Ctx) {
 	c.rule("C06-R8", "PAIR: every Lock/RLock in pkg/server (auth failure trackers) is released on every path to a return")
 	c.Sites["C06-R8#acquire-sites"] = lockReleaseAudit(c, "C06-R8", []string{serverPkg})
 	c.floor("C06-R8", 6)
+	// ---- R9 middleware chains are not built in shared storage
+	c.rule("C06-R9", "ESC/alias: in pkg/server and cmd/glyph no `append` takes a slice held in a long-lived object (a struct field, a package variable) as its first argument and keeps the result anywhere but in that same place: a route's middleware chain (its auth check) is never written into spare capacity that the next registration overwrites")
+	c.Sites["C06-R9#appends-on-shared-slices"] = appendAliasAudit(c, "C06-R9", []string{serverPkg, "cmd/glyph"}, "Here: a route registered later replaces the auth middleware of a route registered earlier.")
+	c.floor("C06-R9", 1)
+	// ---- R10 the scheme of the Authorization header is compared as a scheme
+	c.rule("C06-R10", "CMP: no code of pkg/server, pkg/apikey or cmd/glyph compares text with the literal scheme `Bearer` byte for byte (==, !=, strings.HasPrefix/TrimPrefix/CutPrefix/HasSuffix/Index/Contains with a constant matching (?i)^bearer ?$): auth scheme names are case-insensitive, so a byte-exact test rejects `bearer <valid credential>` and counts it as a failed attempt")
+	{
+		isScheme := func(v ssa.Value) bool {
+			s, ok := constString(v)
+			if !ok {
+				return false
+			}
+			t := strings.ToLower(strings.TrimRight(s, " "))
+			return t == "bearer" && len(s)-len(t) <= 1
+		}
+		n := 0
+		for _, rel := range []string{serverPkg, "pkg/apikey", "cmd/glyph"} {
+			for _, fn := range c.srcFuncs(rel) {
+				k := 0
+				eachInstr(fn, func(_ *ssa.BasicBlock, _ int, ins ssa.Instruction) {
+					bad := false
+					switch x := ins.(type) {
+					case *ssa.BinOp:
+						if (x.Op == token.EQL || x.Op == token.NEQ) && (isScheme(x.X) || isScheme(x.Y)) {
+							bad = true
+						}
+					case *ssa.Call:
+						switch callName(x) {
+						case "strings.HasPrefix", "strings.TrimPrefix", "strings.CutPrefix", "strings.HasSuffix", "strings.Index", "strings.Contains", "strings.Cut", "strings.Split", "strings.SplitN", "bytes.HasPrefix":
+							for _, a := range x.Call.Args[1:] {
+								if isScheme(a) {
+									bad = true
+								}
+							}
+						case "strings.EqualFold":
+							if isScheme(x.Call.Args[0]) || isScheme(x.Call.Args[1]) {
+								n++
+							}
+						}
+					}
+					if bad {
+						k++
+						n++
+						c.ob("C06-R10", fnKey(fn)+"#scheme-compared-byte-for-byte-"+itoa(k), ins.Pos(), false, "the Authorization scheme is compared with the exact bytes of `Bearer`: `bearer <valid credential>` / `BEARER …` is rejected (and counted towards the client's lock-out) although it carries the configured credential")
+					}
+				})
+			}
+		}
+		c.ob("C06-R10", "scheme-comparisons-are-case-insensitive", token.NoPos, n > 0, "no comparison with the Bearer scheme found at all: the credential extraction is not where the rule expects it")
+		c.Sites["C06-R10#scheme-comparisons"] = n
+	}
 	// ---- R1 wiring
 	c.rule("C06-R1", "TBL/def-use: every server.Route built in cmd/glyph from an *ast.Route sets Middlewares to routeMiddlewares(r) for the same r that produced its Handler; every ast.Route literal in the module keeps .Auth (parsed by parseAuthConfig or copied from the source route)")
 	n := 0
